@@ -18,8 +18,11 @@ DEVS = [
     {"dev": {"k": "disc_withhold"}, "need_disclosed": 1},
     {"dev": {"k": "inner_id_other", "other": "zz"}},
     {"dev": {"k": "wrong_secret", "slot": 0}},
+    {"dev": {"k": "eq_independent_nonces"}},
+    {"dev": {"k": "eq_copy_response"}},
+    {"dev": {"k": "eq_unequal_shared_nonce"}},
 ]
-SHAPES = [dict(n_creds=1, comm=True, n_claims=5), dict(n_creds=1, comm=True, n_claims=4), dict(n_creds=2, eq=True, comm=True, n_claims=5), dict(n_creds=1, comm=True, n_claims=3, disclosed=[])]
+SHAPES = [dict(n_creds=1, comm=True, n_claims=5), dict(n_creds=1, comm=True, n_claims=4), dict(n_creds=2, eq=True, comm=True, n_claims=5), dict(n_creds=1, comm=True, n_claims=3, disclosed=[]), dict(n_creds=3, eq=True, comm=True, n_claims=4), dict(n_creds=4, eq=True, n_claims=3)]
 
 
 def explore(ctx):
